@@ -980,8 +980,9 @@ func F5File() *dsl.File {
 		f("Label", 2, dsl.String),
 		msg("Tiny", 3, "Tiny"),
 		{Name: "IDs", Num: 4, T: dsl.String, Card: dsl.Repeated, Comment: " IDs (its name starts with the name of ID)"},
+		{Name: "display_name", Num: 5, T: dsl.String, Comment: " display_name is a lower_snake name in a nested message"},
 	}}
-	tiny := &dsl.Message{Name: "Tiny", Fields: []*dsl.Field{f("On", 1, dsl.Bool), f("N", 2, dsl.Int32)}}
+	tiny := &dsl.Message{Name: "Tiny", Fields: []*dsl.Field{f("On", 1, dsl.Bool), f("N", 2, dsl.Int32), f("low_n", 3, dsl.Int64)}}
 	stamp := &dsl.Message{Name: "Stamp", Comment: " Stamp is embedded in a root and in a nested message", Fields: []*dsl.Field{
 		{Name: "Rev", Num: 1, T: dsl.Int64, Comment: " Rev counts revisions"}, f("Who", 2, dsl.String)}}
 	deep := &dsl.Message{Name: "Deep", Fields: []*dsl.Field{msg("Inner", 1, "Shared"), {Name: "Tags", Num: 2, T: dsl.String, Card: dsl.Repeated},
